@@ -1417,4 +1417,9 @@ theorem res_ext (a b : RuntimeResources) (h1 : a.Cpu = b.Cpu) (h2 : a.Memory = b
   cases a; cases b; simp_all
 
 
+/-- componentwise order on counter vectors -/
+def cntLe (a b : RuntimeResources) : Prop :=
+  a.Cpu.toNat ≤ b.Cpu.toNat ∧ a.Memory.toNat ≤ b.Memory.toNat ∧ a.Millis.toNat ≤ b.Millis.toNat
+
+
 end GoluaVerif.Proofs.Ctx
